@@ -46,3 +46,10 @@ CHECKS["C17"] = {
     "text": "Every claim SymbolicMaths makes (equal, never equal, a finite solution set, an expansion) about a pair of the enumerated expressions is checked against Fortran integer semantics on every valuation of i,j,n in -4..4. A False/'independent' answer is a non-claim.",
     "note": "Trusts E1's integer arithmetic (truncating division, MOD sign, MIN/MAX). Open finding C17-int-division-exact: claims that hold only if integer division were exact.",
 }
+
+CHECKS["C08"] = {
+    "level": "model_checking",
+    "technique": "exhaustive enumeration of loops (subscript pairs x headers x scalar patterns x nests) through the real DependencyTools.can_loop_be_parallelised under a CPU-time watchdog; every True verdict is checked by executing the loop in the E1 interpreter on all inputs and comparing the recorded per-iteration access sets of all iteration pairs",
+    "text": "For every enumerated loop that the analysis reports parallelisable, no two distinct iterations (of one execution of that loop) touch the same memory location with at least one write on any enumerated input, except scalars written first in every iteration that touches them; the analysis must answer within 60 s of CPU time. quick 1.5k loops, thorough 2.9k loops, inputs n=0..5 x k x index-array contents.",
+    "note": "Dynamic Bernstein conditions on bounded inputs (n<=5): a dependence that needs more than 5 iterations to manifest is not seen. False verdicts are never judged. Open findings: integer-division subscripts, conditionally written scalars. Fixed: non-termination with variables d_i/d1_i.",
+}
